@@ -35,7 +35,7 @@ TEnter    == Consume /\ E.ev = "enter" /\ Enter(E.c) /\ snaps' = Append(snaps, p
 TRejected == Consume /\ E.ev = "rejected" /\ EnterRejected /\ snaps' = snaps /\ Keep
 TLeave    == Consume /\ E.ev = "leave" /\ Leave /\ PopSnap
 TAbort    == Consume /\ E.ev = "abort" /\ Unwind /\ PopSnap
-TRaise    == Consume /\ E.ev = "raise" /\ Raise /\ snaps' = snaps /\ Keep
+TRaise    == Consume /\ E.ev = "raise" /\ Raise(E.c) /\ snaps' = snaps /\ Keep
 TTry      == Consume /\ E.ev = "try_enter" /\ TryEnter /\ snaps' = Append(snaps, prev) /\ Keep
 TTryDone  == Consume /\ E.ev = "try_done" /\ TryLeave /\ PopSnap
 TCaught   == Consume /\ E.ev = "try_caught" /\ Catch /\ PopSnap
